@@ -1,13 +1,13 @@
-CLAIM = True
+CLAIM = False
 from props.C08 import seq
 
 
 def obligations(tier):
     q = tier == 'quick'
     obs = []
-    cfgs = [(0, 1, 1, 8)] if q else [(0, 1, 1, 8), (0, 2, 1, 4), (1, 1, 1, 8), (1, 2, 2, 4)]
+    cfgs = [(0, 1, 1, 4), (1, 2, 1, 4)] if q else [(0, 1, 1, 8), (0, 2, 1, 4), (1, 1, 1, 8), (1, 2, 2, 4)]
     for (mm, i, mn, mx) in cfgs:
-        o = seq('resize_any_%s_i%d_m%d_M%d' % (['order', 'chunk'][mm], i, mn, mx), 2, mm, i, mn, mx, 0, 0, unwind=8,
+        o = seq('resize_any_%s_i%d_m%d_M%d' % (['order', 'chunk'][mm], i, mn, mx), 2, mm, i, mn, mx, 0, 0, unwind=6 if mx <= 4 else 8, extra_cf=[] if not q else ['-DONE_RESIZE'],
                 desc='cds_lfht_resize(ht, n) for a fully symbolic 64-bit n on a table holding 2 nodes with symbolic hashes, then a second resize to another symbolic size: '
                      'returns (unwinding assertions bound the resize loop), contents preserved (lookup / traversal / count), 1 <= size <= max, pool allocator checks '
                      'single free and no use of freed bucket tables',
